@@ -16,6 +16,7 @@ META = {
 
 def run(ctx, res):
     prog = ctx.prog("K0")
-    m = framing.rules_new(prog, res, want=())
+    import engine
+    m = framing.rules_new(prog, engine.Filtered(res, {"A-shape", "S-closed"}))
     framing.rules_scan(prog, res, m)
     framing.rules_iter(prog, res)
